@@ -1,106 +1,6 @@
 package main
 
-import (
-	"fmt"
-	"strings"
-)
+// Units register themselves from unit_*.go (one file per generated module).
+var units []unit
 
 const prelude = "import BB.GoPrelude\n\nset_option linter.unusedVariables false\n\nnamespace BB.Gen\nopen BB\n\n"
-
-var units = []unit{
-	{
-		module: "Location",
-		files:  []string{"pkg/blobstore/local/location.go"},
-		run: func() (string, []string, error) {
-			f, _, err := parseFile("pkg/blobstore/local/location.go")
-			if err != nil {
-				return "", nil, err
-			}
-			c := newCtx(f)
-			st, err := c.structure(f, "Location", "Location")
-			if err != nil {
-				return "", nil, err
-			}
-			fd := findFunc(f, "Location", "IsOlder")
-			if fd == nil {
-				return "", nil, fmt.Errorf("Location.IsOlder not found")
-			}
-			fn, err := c.function(fd, "Location.isOlder")
-			if err != nil {
-				return "", nil, err
-			}
-			return prelude + st + "\n" + fn + "\nend BB.Gen\n", []string{"Location.IsOlder"}, nil
-		},
-	},
-	{
-		module: "GrowthPolicy",
-		files:  []string{"pkg/blobstore/local/block_list_growth_policy.go"},
-		run: func() (string, []string, error) {
-			f, _, err := parseFile("pkg/blobstore/local/block_list_growth_policy.go")
-			if err != nil {
-				return "", nil, err
-			}
-			c := newCtx(f)
-			var b strings.Builder
-			b.WriteString(prelude)
-			var names []string
-			for _, s := range []struct{ goName, lean string }{
-				{"immutableBlockListGrowthPolicy", "ImmutablePolicy"},
-				{"mutableBlockListGrowthPolicy", "MutablePolicy"},
-			} {
-				st, err := c.structure(f, s.goName, s.lean)
-				if err != nil {
-					return "", nil, err
-				}
-				b.WriteString(st + "\n")
-				for _, m := range []string{"ShouldGrowNewBlocks", "ShouldGrowCurrentBlocks"} {
-					fd := findFunc(f, s.goName, m)
-					if fd == nil {
-						return "", nil, fmt.Errorf("%s.%s not found", s.goName, m)
-					}
-					fn, err := c.function(fd, s.lean+"."+lowerFirst(m))
-					if err != nil {
-						return "", nil, err
-					}
-					b.WriteString(fn + "\n")
-					names = append(names, s.goName+"."+m)
-				}
-			}
-			b.WriteString("end BB.Gen\n")
-			return b.String(), names, nil
-		},
-	},
-	{
-		module: "Rendezvous",
-		files:  []string{"pkg/blobstore/sharding/rendezvous_shard_selector.go"},
-		run: func() (string, []string, error) {
-			f, _, err := parseFile("pkg/blobstore/sharding/rendezvous_shard_selector.go")
-			if err != nil {
-				return "", nil, err
-			}
-			c := newCtx(f)
-			var b strings.Builder
-			b.WriteString(prelude + "namespace Rendezvous\n\n")
-			t, err := c.table(f, "lut")
-			if err != nil {
-				return "", nil, err
-			}
-			b.WriteString(t + "\n")
-			var names []string
-			for _, n := range []string{"Log2Fixed", "score", "splitmix64"} {
-				fd := findFunc(f, "", n)
-				if fd == nil {
-					return "", nil, fmt.Errorf("%s not found", n)
-				}
-				fn, err := c.function(fd, lowerFirst(n))
-				if err != nil {
-					return "", nil, err
-				}
-				b.WriteString(fn + "\n")
-				names = append(names, n)
-			}
-			b.WriteString("end Rendezvous\nend BB.Gen\n")
-			return b.String(), names, nil
-		},
-	},
-}
